@@ -151,6 +151,24 @@ def observe(cx, tier, seed, workdir, manifest, impl=None):
         return concepts.Context.fromjson(base + '.json')
     add('JSON file', json_file, force_lattice=False)
 
+    def json_fileobj_indented():
+        ctx.tojson(base + '.i4.json', indent=4, sort_keys=False)
+        with open(base + '.i4.json', encoding='utf-8') as f:
+            return concepts.Context.fromjson(f)
+    add('JSON file object, indent=4', json_fileobj_indented, force_lattice=False)
+
+    def json_stringio_tab():
+        buf = io.StringIO()
+        ctx.tojson(buf, indent='\t')
+        return concepts.Context.fromjson(io.StringIO('\n' + buf.getvalue()))
+    add('JSON StringIO, tab indent, leading newline', json_stringio_tab, force_lattice=False)
+
+    def json_path_raw():
+        with open(base + '.praw.json', 'w', encoding='utf-8') as f:
+            json.dump(dp, f, indent=1)
+        return concepts.Context.fromjson(base + '.praw.json', raw=True)
+    add('JSON path permuted raw', json_path_raw, force_lattice=False)
+
     def literal_string():
         return concepts.Context.fromstring(ctx.tostring(frmat='python-literal'), frmat='python-literal')
     add('python-literal string', literal_string, force_lattice=False)
